@@ -96,7 +96,7 @@ def run_case(case):
     # variant: checkpoint-restart use - the solve is split at an output time, the returned extra state is handed to the
     # second call, and the loss also reads the final extra state (so gradient has to flow through the returned state)
     chunked = len(tsl) > 2 and rng.random() < 0.3
-    cnt["chunked_with_extra_state", "far_time_axis"] = int(chunked)
+    cnt["chunked_with_extra_state"] = int(chunked)
     cut = rng.randrange(1, len(tsl) - 1) if chunked else None
     we = [torch.randn(s_, generator=gen) for s_ in ((B, d), (B, d) if nt == "diagonal" else (B, d, sde.m), (B, d))]
 
